@@ -31,7 +31,7 @@ func (P) Rule() string {
 		"every single-byte corruption at every offset of every file (crc, length and payload fields), each followed by read/search on the real decoder; " +
 		"(B) random sequences of write/sync/rotate/tick/crash/read/search/disk with records from 30 B to 45 KiB so that the 40960-byte bufio buffer flushes mid-record; " +
 		"(C) rotation with an un-flushed buffer (straddling records); (D) malformed stream: garbage, bad crc, valid crc over an undecodable payload, zero and oversized length fields; " +
-		"(E) long-lived groups (index >= 1000); (F) catchupReplay of a real ConsensusState over intact / cut / flipped logs; (G) the real 5-second ticker: head and total size limits, deletion of the oldest files, stale minIndex, restart; (H) baseWAL as a service (Start/Write/WriteSync/Stop); (I) payload == maxMsgSizeBytes, bound-1 (bound+1 gated: known defect); " +
+		"(E) long-lived groups (index >= 1000); (F) catchupReplay of a real ConsensusState over intact / cut / flipped logs; (G) the real 5-second ticker: head and total size limits, deletion of the oldest files, stale minIndex, restart; (H) baseWAL as a service (Start/Write/WriteSync/Stop); (I) payload == bound-1 / bound / bound+1 through the real encoder, a wrapped reactor-maximum peer message; (J) restart above height 1 compared by state: csim simulation to height k, fresh ConsensusState on the node's DB/app with a WAL cut at every record boundary and inside records; " +
 		"non-trivial = at least two records written and at least one damaged/rotated/crashed read or search; distinct = distinct op sequence"
 }
 
@@ -51,6 +51,8 @@ type exec struct {
 	openedAt    time.Time      // when OpenGroup created the group's 5-second ticker
 	started     bool           // Group.Start was called (processTicks is running)
 	ticks       int
+	sim         *simRun     // the simulation of the current case (resume family)
+	nsNext      map[int]int // next expected trace index per node (`ns` ops)
 	snapF       [][]byte
 	snapH       []byte
 	snapHasHead bool
@@ -82,6 +84,7 @@ func (e *exec) closeGroup() {
 
 func (e *exec) reset() {
 	e.closeGroup()
+	e.sim = nil
 	if lastDir != "" {
 		os.RemoveAll(lastDir)
 	}
@@ -348,6 +351,15 @@ func (e *exec) Exec(op string) string {
 			os.Remove(e.path)
 		}
 		return "ok"
+	case "simk":
+		return e.simk(toks)
+	case "ns":
+		return e.nsOp(op, toks)
+	case "restart":
+		j, _ := argInt(toks, "cut")
+		torn, _ := argInt(toks, "torn")
+		rot, _ := argInt(toks, "rot")
+		return e.restart(e.sim, int(j), int(torn), int(rot))
 	case "catchup":
 		return e.catchup(e.keys)
 	case "walsvc":
